@@ -140,6 +140,12 @@ def _bernoulli(probs):
     return tfd.Bernoulli(probs=probs, dtype=jnp.float32)
 
 
+def _uniform_lw(low, width):
+    # Uniform(low, low + width): its default event-space bijector, Sigmoid(low, high), depends on
+    # the distribution's parameters
+    return tfd.Uniform(low=low, high=low + width)
+
+
 FAMILIES = {
     "normal": {"tfd": tfd.Normal, "params": {"loc": "real", "scale": "pos"}, "support": "real"},
     "gamma": {"tfd": tfd.Gamma, "params": {"concentration": "pos", "rate": "pos"}, "support": "pos"},
@@ -150,6 +156,7 @@ FAMILIES = {
     "invgamma": {"tfd": tfd.InverseGamma, "params": {"concentration": "pos", "scale": "pos"}, "support": "pos"},
     "bernoulli": {"tfd": _bernoulli, "params": {"probs": "unit"}, "support": "binary"},
     "poisson": {"tfd": tfd.Poisson, "params": {"rate": "pos"}, "support": "count"},
+    "uniform_lw": {"tfd": _uniform_lw, "params": {"low": "real", "width": "pos"}, "support": "real"},
 }
 
 
@@ -253,7 +260,7 @@ def gen_spec(rng, n_items=(4, 14), p_dist=0.5, p_transient=0.3, p_vec=0.35, seed
              hier=False, families=None, allow_pair=True, allow_group=True, allow_bare=True,
              p_transform=0.0, transforms=None, roles=True, prefixes=("n", "v")) -> list[dict]:
     NP, VP = prefixes
-    fams = families or list(FAMILIES)
+    fams = families or [f for f in FAMILIES if f != "uniform_lw"]
     n = rng.randint(*n_items)
     items: list[dict] = []
 
@@ -282,6 +289,26 @@ def gen_spec(rng, n_items=(4, 14), p_dist=0.5, p_transient=0.3, p_vec=0.35, seed
         if not have_inputs or r < 0.18:
             vk = rng.choice(["real", "real", "pos", "unit"])
             items.append({"k": "value", "name": f"{NP}{idx}", "val": draw_value(rng, vk, shape), "vk": vk, "shape": shape})
+        elif r < 0.50 and transforms and rng.random() < 0.2 and any(it["k"] in ("value", "var") and not it.get("dist") and it.get("vk") in ("real", "pos", "unit") and it.get("shape") == [] for it in items):
+            # a variable whose distribution's *default bijector depends on its parameters*:
+            # x ~ Uniform(low, low + width) with model-dependent low / width, always transformed
+            # through a default-bijector entry point; the start value lies inside the support
+            known = [i for i, it in enumerate(items) if it["k"] in ("value", "var") and not it.get("dist") and it.get("shape") == []]
+            lows = [i for i in known if items[i]["vk"] in ("real", "pos", "unit")]
+            widths = [i for i in known if items[i]["vk"] in ("pos",)]
+            li = rng.choice(lows)
+            low_ref = {"i": li, "via": "var" if items[li]["k"] == "var" else "node"}
+            if widths and rng.random() < 0.7:
+                wi = rng.choice(widths)
+                width_ref, w0 = {"i": wi, "via": "var" if items[wi]["k"] == "var" else "node"}, items[wi]["val"]
+            else:
+                w0 = draw_value(rng, "pos", [])
+                width_ref = {"c": w0}
+            x0 = round(items[li]["val"] + rng.uniform(0.15, 0.85) * w0, 4)
+            how = rng.choice([h for h in transforms if h in ("default", "auto", "gb_default")] or ["default"])
+            items.append({"k": "var", "name": f"{VP}{idx}", "val": x0, "vk": "real", "shape": [], "role": rng.choice(["param", "param", None]),
+                          "dist": {"fam": "uniform_lw", "args": {"low": low_ref, "width": width_ref}, "transient": False, "per_obs": rng.random() < 0.7},
+                          "transform": {"how": how, "bij": None, "arg": None}})
         elif r < 0.50:
             # variable, strong, possibly with a distribution
             dist = None
@@ -396,7 +423,7 @@ def gen_spec(rng, n_items=(4, 14), p_dist=0.5, p_transient=0.3, p_vec=0.35, seed
 
 
 HOWS = ["instance", "class", "default", "auto", "gb_instance", "gb_class", "gb_default"]
-HAS_DEFAULT = ("gamma", "exponential", "beta", "halfnormal", "lognormal", "invgamma")
+HAS_DEFAULT = ("gamma", "exponential", "beta", "halfnormal", "lognormal", "invgamma", "uniform_lw")
 
 
 def gen_transform(rng, fam, vk, hows, pick_ref):
